@@ -8,3 +8,7 @@ open IrVerif.Path
 #print axioms C10_load_base_is_model_dir
 #print axioms C10_load_read_safe
 #print axioms C10_open_safe
+#print axioms C10_call_events
+#print axioms C10_call_open_safe
+#print axioms C10_call_result
+#print axioms C10_session_safe
